@@ -355,6 +355,7 @@ class Canon(object):
         self._match_to_if(fn)
         self._subst_consts(fn, cls, m)
         self._stmt_comprehensions(fn)
+        self._devirtualise(fn, cls, m)
         self._hoist_ifexp(fn)
         for _ in range(3):
             if not self._inline_context_helpers(fn, cls, m):
@@ -365,6 +366,7 @@ class Canon(object):
         for _ in range(5):
             if not self._inline_round(fn, cls, m):
                 break
+            self._devirtualise(fn, cls, m)          # an inlined body brings its own calls of overridden new helpers
             self._hoist_ifexp(fn)
             self._subst_consts(fn, cls, m)      # an inlined body brings its own references to new constants
         for _ in range(3):
@@ -861,12 +863,14 @@ class Canon(object):
                 return None
             owner = None
             recv = None
+            static_recv = False
             if isinstance(f.value, ast.Name) and first is not None and f.value.id == first:
                 owner, recv = cls, f.value
             elif isinstance(f.value, ast.Name) and f.value.id not in (hb if hb is not None else bound_names(fn)):
                 r = self.prog.lookup(m, f.value.id)
                 if hasattr(r, 'mro'):
                     owner = r
+                    static_recv = True
             elif isinstance(f.value, ast.Call) and _dotted(f.value.func) == 'type' and len(f.value.args) == 1 and \
                     isinstance(f.value.args[0], ast.Name) and f.value.args[0].id == first:
                 owner = cls
@@ -886,7 +890,7 @@ class Canon(object):
                 return None
             # a helper that some class overrides is dispatched dynamically: leave it alone
             ndefs = sum(1 for c in self.prog.all_classes() if f.attr in c.methods)
-            if ndefs != 1:
+            if ndefs != 1 and not static_recv:       # K.h(obj, ..) names its definition: no dispatch
                 return None
             decs = [_dotted(d) for d in fi.node.decorator_list]
             if any(d not in ('staticmethod', 'classmethod') for d in decs):
@@ -906,6 +910,98 @@ class Canon(object):
                 return fi.node, call.args[0], 'unbound'
             return fi.node, recv, 'method'
         return None
+
+    def _devirtualise(self, fn, cls, m):
+        """`self.h(a..)` where h is a NEW method (name not in the reference vocabulary) that subclasses of the host's class override
+        is dynamic dispatch on the receiver's class.  It is spelled out as the chain of class tests it stands for,
+            K1.h(self, a..) if isinstance(self, K1) else ... else K0.h(self, a..)
+        (most derived override first, K0 = the definition the host's own class resolves to), so the explicit, statically bound
+        calls can be inlined like any other new helper and every engine sees one arm per concrete receiver class.  Closed world:
+        the classes of the program; the chain is verified against the MRO of every subclass of the host's class, else left alone."""
+        if cls is None or self.outer_first is not None or not fn.args.args or fn.decorator_list and \
+                any(_dotted(d) in ('staticmethod', 'classmethod') for d in fn.decorator_list):
+            return False
+        first = fn.args.args[0].arg
+        if first in {n.id for n in walk_scope(fn) if isinstance(n, ast.Name) and isinstance(n.ctx, (ast.Store, ast.Del))}:
+            return False
+        canon = self
+        plans = {}
+
+        def plan(name):
+            if name in plans:
+                return plans[name]
+            plans[name] = None
+            if name in VOCAB_FUNCS or (name.startswith('__') and name.endswith('__')):
+                return None
+            definers = [c for c in self.prog.all_classes() if name in c.methods]
+            if len(definers) < 2 or any(c.methods[name].node.decorator_list for c in definers):
+                return None
+            if any(name in mm.functions for mm in self.prog.modules.values()):
+                return None
+
+            def resolve(s):
+                for k in s.mro():
+                    if name in k.methods:
+                        return k
+                return None
+            subs = [s for s in self.prog.all_classes() if cls in s.mro()]
+            default = resolve(cls)
+            if default is None or any(resolve(s) is None for s in subs):
+                return None
+            over = []
+            for s in subs:
+                r = resolve(s)
+                if r is not default and r not in over:
+                    over.append(r)
+            if not over:
+                return None
+            over.sort(key=lambda k: -len(k.mro()))
+            for s in subs:              # the chain must pick, for every concrete receiver class, the definition its MRO picks
+                hit = next((k for k in over if k in s.mro()), default)
+                if hit is not resolve(s):
+                    return None
+            for k in over + [default]:  # the class names must denote these classes where the host is written
+                if self.prog.lookup(m, k.name) is not k or k.name in bound_names(fn):
+                    return None
+            plans[name] = (over, default)
+            return plans[name]
+
+        changed = [False]
+
+        class T(ast.NodeTransformer):
+            def visit_FunctionDef(self, node):
+                return self.generic_visit(node) if node is fn else node
+
+            def visit_Lambda(self, node):
+                return node
+
+            def visit_Call(self, node):
+                self.generic_visit(node)
+                f = node.func
+                if not (isinstance(f, ast.Attribute) and isinstance(f.value, ast.Name) and f.value.id == first):
+                    return node
+                if any(isinstance(a, ast.Starred) for a in node.args) or any(k.arg is None for k in node.keywords):
+                    return node
+                pl = plan(f.attr)
+                if pl is None:
+                    return node
+                over, default = pl
+
+                def bound(k):
+                    c = ast.Call(func=ast.Attribute(value=ast.Name(id=k.name, ctx=ast.Load()), attr=f.attr, ctx=ast.Load()),
+                                 args=[ast.Name(id=first, ctx=ast.Load())] + [copy.deepcopy(a) for a in node.args],
+                                 keywords=[copy.deepcopy(k_) for k_ in node.keywords])
+                    return _relocate(c, node)
+                e = bound(default)
+                for k in reversed(over):
+                    test = ast.Call(func=ast.Name(id='isinstance', ctx=ast.Load()),
+                                    args=[ast.Name(id=first, ctx=ast.Load()), ast.Name(id=k.name, ctx=ast.Load())], keywords=[])
+                    e = _relocate(ast.IfExp(test=test, body=bound(k), orelse=e), node)
+                changed[0] = True
+                canon.stats['spellings'] += 1
+                return e
+        T().visit(fn)
+        return changed[0]
 
     def _fresh(self, base):
         self.counter += 1
